@@ -488,6 +488,42 @@ type RetLeaf struct {
 	Val   ssa.Value
 	Block *ssa.BasicBlock // block whose guards apply to this leaf (phi edge source when known)
 	Pos   token.Pos
+	Into  *ssa.BasicBlock // for a phi leaf: the phi's block (the edge Block->Into is taken)
+}
+
+// Guards returns the branch conditions known to hold when this leaf is the
+// returned value: those dominating Block plus, for a phi leaf, the edge
+// from Block into the phi's block.
+func (l RetLeaf) Guards() []Guard {
+	gs := guardsOf(l.Block)
+	if l.Into != nil && len(l.Block.Instrs) > 0 {
+		if iff, ok := l.Block.Instrs[len(l.Block.Instrs)-1].(*ssa.If); ok && l.Block.Succs[0] != l.Block.Succs[1] {
+			br := l.Block.Succs[0] == l.Into
+			if br || l.Block.Succs[1] == l.Into {
+				cond := iff.Cond
+				for {
+					if u, ok := cond.(*ssa.UnOp); ok && u.Op == token.NOT {
+						cond = u.X
+						br = !br
+						continue
+					}
+					break
+				}
+				gs = append([]Guard{{Cond: cond, Branch: br, If: iff}}, gs...)
+			}
+		}
+	}
+	return gs
+}
+
+// GuardedBy reports whether one of the leaf's guards satisfies pred.
+func (l RetLeaf) GuardedBy(pred func(g Guard) bool) bool {
+	for _, g := range l.Guards() {
+		if pred(g) {
+			return true
+		}
+	}
+	return false
 }
 
 // returnLeaves enumerates the values that can reach result slot idx of f,
@@ -585,7 +621,13 @@ func expandLeaves(v ssa.Value, blk *ssa.BasicBlock, ret *ssa.Return, seen map[ss
 		}
 		seen[x] = true
 		for i, e := range x.Edges {
+			n := len(*out)
 			expandLeaves(e, x.Block().Preds[i], ret, seen, out)
+			for j := n; j < len(*out); j++ {
+				if (*out)[j].Into == nil && (*out)[j].Block == x.Block().Preds[i] {
+					(*out)[j].Into = x.Block()
+				}
+			}
 		}
 		return
 	case *ssa.ChangeType:
